@@ -8,6 +8,7 @@ import (
 	"sort"
 	"strings"
 
+	"golang.org/x/tools/go/callgraph"
 	"golang.org/x/tools/go/ssa"
 )
 
@@ -333,10 +334,14 @@ func loadGuards() ([]guardRow, error) {
 }
 
 // runRec classifies every recursive SCC reachable from entries.
-func runRec(c *Check, rule string, entries []*ssa.Function, only func(*ssa.Function) bool) {
+func runRec(c *Check, rule string, entries []*ssa.Function, only func(*ssa.Function) bool, exclude ...*ssa.Function) {
+	excl := map[*ssa.Function]bool{}
+	for _, f := range exclude {
+		excl[f] = true
+	}
 	p := c.P
 	g := buildRepoGraph(p)
-	all := reachable(p.CallGraph(), entries, nil)
+	all := reachable(p.CallGraph(), entries, func(e *callgraph.Edge) bool { return excl[e.Callee.Func] })
 	keep := map[*ssa.Function]bool{}
 	for f := range all {
 		nf := normFn(p, f)
